@@ -4,6 +4,7 @@ Every adapter takes (params, tensors) with numpy float64 tensors (or None) and
 returns a list of numpy arrays / None; exceptions propagate (the caller maps
 them to 'raise').
 """
+import os
 import numpy as np
 import torch
 from . import rt
@@ -218,9 +219,22 @@ def _inverse_with_list_history(mod, yl, yh):
 
 
 def _wave(ts, nw):
+    """the `wave` constructor argument: a name (when set), or the documented tuple of arrays - handed over in one of the
+    forms a caller may use for "a tuple of numpy arrays" (1-D arrays, plain lists, (L,1) column vectors as the library's
+    own dtcwt tables are stored); the form is determined by the filter contents, so replays reproduce it"""
     if WNAME is not None:
         return WNAME
-    return tuple(np.asarray(t, dtype=np.float64) for t in ts[:nw])
+    fs = [np.asarray(t, dtype=np.float64).ravel() for t in ts[:nw]]
+    if os.environ.get('VERIF_NO_FORMS') == '1':
+        return tuple(fs)
+    k = _hashlib.sha1(repr([f.tolist() for f in fs]).encode()).digest()[1] % 4
+    if k == 1:
+        return tuple(f.tolist() for f in fs)
+    if k == 2:
+        return tuple(f.reshape(-1, 1).copy() for f in fs)
+    if k == 3:
+        return [f.copy() for f in fs]
+    return tuple(fs)
 
 
 def DWT1DForward(ps, ts):
